@@ -233,6 +233,16 @@ pub fn parse_subgoal(to_parse: &str) -> Result<Goal, String> {
        return parse_operator_goal(&functor_str, &args_str);
     }
 
+    // A goal without arguments can be written with empty parentheses.
+    // This is how it is displayed: test()
+    // (Built-in predicates which require arguments are still rejected below.)
+    if args_str.trim().len() == 0 {
+        match make_goal(&functor_str, vec![]) {
+            Goal::BuiltInGoal(BuiltInPredicate{functor: _, terms: Some(_)}) => {},
+            goal => { return Ok(goal); },
+        }
+    }
+
     let args = parse_arguments(&args_str)?;
     return Ok(make_goal(&functor_str, args));
 
